@@ -626,16 +626,25 @@ func findSignerCall(P *core.Program, fn *ssa.Function, msg ssa.Value, signer, ta
 	ff := P.Facts(fn)
 	ok = true
 	isSignerVal := func(v ssa.Value) bool {
-		return ff.AllOrigins(v, signerTransparent, func(o core.Origin) bool {
+		// helpers that merely repackage the message (msg.Parties() → {Sender: decode(msg.Sender)})
+		// are expanded through their bodies
+		os := P.DeepOrigins(ff, v, "", signerTransparent, 3)
+		if len(os) == 0 {
+			return false
+		}
+		for _, o := range os {
 			if signerParams[o.Val] && o.Path == "" {
-				return true
+				continue
 			}
 			if msg != nil && o.Kind == "param" && o.Val == msg {
 				p := strings.TrimPrefix(o.Path, "#0") // tuple extract of conversion
-				return p == "."+signer || p == "#0."+signer || strings.HasSuffix(p, "."+signer)
+				if p == "."+signer || p == "#0."+signer || strings.HasSuffix(p, "."+signer) {
+					continue
+				}
 			}
 			return false
-		})
+		}
+		return true
 	}
 	for _, c := range core.Calls(fn) {
 		cc := c.Common()
